@@ -26,7 +26,7 @@ def uws(cap, strl=8, nvars=2, groups=2, m=3, extra=None):
          "parse_int_decimal.0": cap + 1, "parse_uint_decimal.0": cap + 1, "parse_num_hexadecimal.0": cap + 1,
          "parse_buffer_hexadecimal.0": cap + 1, "parse_buffer_string.0": cap + 1,
          "format_buffer_hexadecimal.0": 10, "format_buffer_string.0": 10,
-         "verif_emit.0": 16, "verif_fmt_dec.0": 12, "verif_fmt_dec.1": 12, "verif_fmt_hex.0": 10, "verif_fmt_hex.1": 12,
+         "verif_emit.0": 66, "verif_snprintf.0": 14, "verif_snprintf.1": 66, "verif_snprintf.2": 18, "verif_fmt_dec.0": 12, "verif_fmt_dec.1": 12, "verif_fmt_hex.0": 10, "verif_fmt_hex.1": 12,
          "is_variables_access_possible.0": nvars + 1, "get_command_by_index.0": groups + 1, "is_command_disable.0": groups + 1,
          "cat_init.0": m + 1, "cat_init.1": groups + 1, "cat_is_unsolicited_event_buffered.0": 10,
          "cat_search_command_by_name.0": m + 1}
@@ -115,14 +115,22 @@ C01_SHAPES_QUICK = [
     ("gxL", 1), ("AgxL", 1), ("ATgxL", 1), ("ATngxL", 1), ("ATn?xL", 1), ("ATn=?xL", 1),
     # two lines
     ("ATLATL", 2), ("gLATnL", 2),
-    # free bytes
-    ("***", 2),
+]
+C01_SHAPES_THOROUGH_EXTRA = [
+    # free bytes (slow: wide hint sets)
+    ("***", 2), ("ATn*L", 1), ("AT*nL", 1),
+    # CR in every position
+    ("RATnL", 1), ("ARTnL", 1), ("ATRnL", 1), ("ATnRL", 1), ("ATn=RaL", 1), ("ATn=aRL", 1), ("ATn?RRL", 1), ("gRxL", 1),
+    # longer names / arguments
+    ("ATnnn=aL", 1), ("ATnn=aaaaL", 1), ("ATn=aaaaaL", 1), ("ATnn?xxL", 1),
+    # second line after every kind of first line
+    ("ATnLATL", 2), ("ATn?LATL", 2), ("ATn=aLATL", 2), ("gxLATL", 2), ("ATn=?LAL", 2),
 ]
 
 
 def c01(tier):
     jobs = []
-    for shape, lines in C01_SHAPES_QUICK:
+    for shape, lines in (C01_SHAPES_QUICK + (C01_SHAPES_THOROUGH_EXTRA if tier == "thorough" else [])):
         rw = ["end-of-scenario"] + (["a-result-code"] if shape.strip("RL*") else [])
         jobs.append(shape_job("C01", shape, lines=lines, required_witness=rw))
     # over-long argument lists against the smallest legal buffer (command half = 6 bytes)
@@ -220,6 +228,7 @@ P("C15", explanation="E2 step obligations (s_step.c / s_api.c)", bounds={"quick"
 P("C16", explanation="E2 step obligations (s_step.c / s_api.c)", bounds={"quick": "", "thorough": ""}, outside="")
 P("C17", explanation="E2 step obligations (s_step.c / s_api.c)", bounds={"quick": "", "thorough": ""}, outside="")
 P("C18", explanation="E2 step obligations (s_step.c / s_api.c)", bounds={"quick": "", "thorough": ""}, outside="")
+P("C19", explanation="E3 r_list.c + E1 k_test.c", bounds={"quick": "", "thorough": ""}, outside="")
 P("C05", explanation="E1 kernel k_buf.c", bounds={"quick": "", "thorough": ""}, outside="")
 
 
@@ -275,18 +284,23 @@ CSTATES = list(range(-1, 25))
 USTATES = list(range(0, 11))
 
 
+def default_pairs(tier):
+    """(command state, event state) pairs: quick = every command state with the event FSM idle, every event state with
+    the command FSM idle, and the cross pairs around the two flush states and hold; thorough = the full product"""
+    if tier != "quick":
+        return [(s, u) for s in CSTATES for u in USTATES]
+    pairs = [(s, 0) for s in CSTATES] + [(0, u) for u in USTATES if u != 0]
+    for p in ((19, 5), (18, 6), (18, 5), (17, 5), (17, 6), (17, 3), (19, 3), (14, 6), (8, 6)):
+        if p not in pairs:
+            pairs.append(p)
+    return pairs
+
+
 def step_jobs(prop, tier, checks=False, calls=1, pairs=None, ringcaps=(1,), seps=(0,), capc=None):
     capc = capc or (8 if tier == "quick" else 12)
     jobs = []
     if pairs is None:
-        pairs = []
-        for s in CSTATES:
-            for u in ((0, 5, 6) if tier == "quick" else USTATES):
-                pairs.append((s, u))
-        for u in USTATES:
-            for s in (0, 17, 19):
-                if (s, u) not in pairs:
-                    pairs.append((s, u))
+        pairs = default_pairs(tier)
     for rc in ringcaps:
         for sep in seps:
             for (s, u) in pairs:
@@ -376,11 +390,32 @@ def c08(tier):
     return with_prop("C08", jobs)
 
 
+def list_job(prop, capmin, capmax, name, m=2):
+    n = 40 + m * 56
+    d = {"N": n, "L": 6, "M": m, "CAPB_MIN": capmin, "CAPB_MAX": capmax}
+    return Job("r_list.%s" % name, "r_list.c", d, unwind=max(n, 40 + m * 40) + 2, unwindset=uws(capmax // 2 + 1, m=m), hinted=True, object_bits=12,
+               samples=300000, timeout=1500, required_witness=["end-of-scenario"])
+
+
+def c19(tier):
+    jobs = [list_job("C19", 20, 22, "m2.cap10to11"), list_job("C19", 14, 17, "m2.cap7to8")]
+    jobs[0].required_witness = ["end-of-scenario", "five-lines-listed", "a-disabled-command-or-group"]
+    jobs[1].required_witness = ["end-of-scenario", "line-does-not-fit"]
+    if tier == "thorough":
+        jobs.append(list_job("C19", 20, 24, "m3.cap10to12", m=3))
+        jobs.append(list_job("C19", 12, 19, "m3.cap6to9", m=3))
+    for nv in ((1, 2) if tier == "quick" else (1, 2, 3)):
+        jobs.append(Job("k_test.nv%d" % nv, "k_test.c", {"NV": nv, "CAPMAX": 64}, unwind=100, unwindset={"strlen.0": 12, "strcpy.0": 10, "strncpy.0": 66},
+                        timeout=1800, samples=100000, solver="kissat",
+                        required_witness=["end-of-scenario", "fits-exactly", "one-byte-short", "unsupported-width"]))
+    return with_prop("C19", jobs)
+
+
 def c15(tier):
     # safety half: OK means quiescent (two consecutive calls), for every ring capacity; liveness half: r_line's step bound
-    pairs = [(s, 0) for s in CSTATES] + [(0, u) for u in USTATES if u != 0] + [(19, 5), (18, 6), (17, 0)]
     jobs = []
     for rc in ((1, 2) if tier == "quick" else (1, 2, 3, 8)):
+        pairs = default_pairs(tier) if rc == 1 else [(0, u) for u in USTATES] + [(8, 0), (19, 0), (17, 0), (4, 0)]
         jobs += step_jobs("C15", tier, calls=2, pairs=pairs, ringcaps=(rc,))
     for shape, lines in (("ATnL", 1), ("ATn?L", 1), ("ATn=aL", 1), ("ATLATL", 2), ("gxL", 1)):
         jobs.append(shape_job("C15", shape, lines=lines))
@@ -417,8 +452,7 @@ def c14(tier):
 
 def c16(tier):
     jobs = api_jobs("C16", (0, 1, 2, 3, 4, 5, 6), 1, 0, (1, 2) if tier == "quick" else (1, 2, 3, 8))
-    pairs = [(s, 0) for s in CSTATES] + [(0, u) for u in USTATES if u != 0] + [(19, 5), (18, 6)]
-    sj = step_jobs("C16", tier, pairs=pairs)
+    sj = step_jobs("C16", tier)
     for j in sj:
         j.defines["MUTEX"] = 1
         j.name += ".mutex"
@@ -427,8 +461,7 @@ def c16(tier):
 
 def c17(tier):
     jobs = api_jobs("C17", (0, 1, 2, 3, 4, 5, 6), 1, 1, (1, 2) if tier == "quick" else (1, 2, 3, 8))
-    pairs = [(s, 0) for s in CSTATES] + [(0, u) for u in USTATES if u != 0] + [(19, 5), (18, 6)]
-    sj = step_jobs("C17", tier, pairs=pairs)
+    sj = step_jobs("C17", tier)
     for j in sj:
         j.defines["MUTEX"] = 1
         j.name += ".mutex"
@@ -438,7 +471,7 @@ def c17(tier):
 REGISTRY = {"C04": c04, "C01": c01, "C02": c02, "C09": c09, "C06": c06, "C10": c10, "C05": c05, "C07": c07,
             "C03": lambda tier: step_jobs("C03", tier, checks=True),
             "C12": c12, "C20": c20, "C08": c08,
-            "C15": lambda tier: c15(tier), "C18": lambda tier: c18(tier), "C11": lambda tier: c11(tier),
+            "C19": lambda tier: c19(tier), "C15": lambda tier: c15(tier), "C18": lambda tier: c18(tier), "C11": lambda tier: c11(tier),
             "C13": lambda tier: c13(tier), "C14": lambda tier: c14(tier), "C16": lambda tier: c16(tier), "C17": lambda tier: c17(tier),
             }
 
@@ -446,3 +479,19 @@ REGISTRY = {"C04": c04, "C01": c01, "C02": c02, "C09": c09, "C06": c06, "C10": c
 def jobs_for(prop, tier):
     f = REGISTRY.get(prop)
     return f(tier) if f else []
+
+
+# detailed per-property texts (what is decided, bounds, outside, trusted base)
+try:
+    from meta import META2
+    for _pid, _m in META2.items():
+        base = META.get(_pid, {"level": "model_checking", "assumptions": list(COMMON_ASSUME)})
+        merged = dict(base)
+        for _k, _v in _m.items():
+            if _k == "assumptions":
+                merged["assumptions"] = list(_v) + list(COMMON_ASSUME)
+            else:
+                merged[_k] = _v
+        META[_pid] = merged
+except ImportError:  # pragma: no cover
+    pass
